@@ -40,8 +40,11 @@ inline void malloc_hook(const volatile void *, size_t) {
 inline void free_hook(const volatile void *) {}
 inline void install_hooks() { __sanitizer_install_malloc_and_free_hooks(malloc_hook, free_hook); }
 
-inline long g_fault_k = 0;  // fault index to inject inside the window of the FINAL operation (0 = none)
-inline bool g_final = false;
+inline long g_cur_fault = 0;    // fault index armed for the window of the operation being applied (0 = none)
+inline bool g_final = false;    // the operation being applied is the checked transition (not the replayed prefix)
+inline long g_last_events = 0;  // fault points passed by the last window (E of the fault enumerator)
+/// an injected fault (element exception or bad_alloc) ended the last window
+inline bool faulted();
 
 inline void win_begin() {
   WinT &w = W();
@@ -50,12 +53,13 @@ inline void win_begin() {
   w.exc_kind = 0;
   w.alloc_calls0 = vf::AL().calls();
   vf::L().events = 0;
-  vf::L().fault_at = g_final ? g_fault_k : 0;
+  vf::L().fault_at = g_cur_fault;
   w.in = true;
 }
 inline void win_end() {
   WinT &w = W();
   w.in = false;
+  g_last_events = vf::L().events;
   vf::L().fault_at = 0;
   w.alloc_calls = vf::AL().calls() - w.alloc_calls0;
 }
@@ -86,6 +90,8 @@ inline void win(F &&f) {
   }
   win_end();
 }
+
+inline bool faulted() { return g_cur_fault > 0 && W().exc && (W().exc_kind == 3 || W().exc_kind == 4); }
 
 // ---- single-pass input source ---------------------------------------------------------------------------------
 template <class U>
